@@ -74,7 +74,9 @@ def operand_choices(name):
                 for c in (('d', 0), ('d', 1), ('d', 255), ('x', b'\xff'), ('x', b'\x02'))]
     if kd == 'f32':
         return [[v] for v in (('f', 2.0), ('f', -3.0), ('f', 1.5), ('fi', 2), ('fi', -3), ('fi', 0), ('fi', -1), ('fi', 16777217),
-                              ('x', b'\x3f\xc0\x00\x00'), ('x', b'\x7f\x80\x00\x00'))]
+                              ('x', b'\x3f\xc0\x00\x00'), ('x', b'\x7f\x80\x00\x00'), ('x', b'\x80\x00\x00\x00'), ('x', b'\x00\x00\x00\x00'),
+                              ('x', b'\xff\x80\x00\x00'), ('x', b'\x7f\xc0\x00\x01'), ('x', b'\x00\x00\x00\x01'), ('x', b'\x4b\x00\x00\x00'),
+                              ('x', b'\xcb\x00\x00\x01'), ('x', b'\x7f\x7f\xff\xff'), ('x', b'\xff\x7f\xff\xff'), ('x', b'\xbf\x80\x00\x00'))]
     if kd == 'u8u8':
         return [[a, b] for a in U8D[:3] + [('x', b'\x80'), ('x', b'\xff')] for b in (U8D[0], U8D[4], ('x', b'\x01'))]
     if kd == 'ms':
